@@ -22,8 +22,9 @@
    [len_ok s b]       the guard: single-owner shapes, only reads under run-time conditions, a constant remove hits the
                       copy, the copies have the same lengths after the loop body as before it; a call h(x) of a function
                       `def h(P): return P[len(Y) + k]` only in the main loop, Y the parameter or a global whose copy has at
-                      the call the length it had at the `def`
-   [fn_env td ps]     the constant environment of a function body: the copies at the `def`, every parameter unfolded
+                      the call the length it had at the FIRST call of the function (where its list variant is parsed)
+   [fn_env td ps]     the constant environment of a function body: the copies [td] of the place where the function is
+                      parsed (its first call), every parameter unfolded
    [frozen_ok s bs]   the guard of read-only sharing: lists assigned from a call that returns one of its list arguments
                       (`x = sel(y, z, c)`) or from another list (`x = y`) are deep copies in the firmware and aliases in
                       CPython; the names involved are only read
@@ -445,15 +446,15 @@ Theorem C09_fn_param_never_folded : forall td params p, In p params -> t_cur (fn
 Proof. exact fn_env_param. Qed.
 Print Assumptions C09_fn_param_never_folded.
 
-(* ... a global that no parameter shadows keeps the copy of the `def` ... *)
+(* ... a global that no parameter shadows keeps the copy of the place where the function is parsed ... *)
 Theorem C09_fn_global_keeps_def_copy : forall td params y, ~ In y params -> t_cur (fn_env td params) y = t_cur td y.
 Proof. exact fn_env_global. Qed.
 Print Assumptions C09_fn_global_keeps_def_copy.
 
 (* ... hence `def h(P): return P[len(P) + k]` evaluates the run-time length of its ARGUMENT, also when P carries the name
    of a global list with a parse-time copy of another length *)
-Theorem C09_fn_param_len_is_argument_len : forall td t st x p sg k,
-  s_len td t st (TCallLen x p p sg k) = Z.of_nat (list_len (f_lookup st x)).
+Theorem C09_fn_param_len_is_argument_len : forall fe t st x p sg k,
+  s_len fe t st (TCallLen x p p sg k) = Z.of_nat (list_len (f_lookup st x)).
 Proof. exact param_len_unfolded. Qed.
 Print Assumptions C09_fn_param_len_is_argument_len.
 
@@ -466,10 +467,11 @@ Proof. exact (conj shadow_ok_guard shadow_ok_python). Qed.
 Print Assumptions C09_fn_shadow_nonvacuous.
 
 (* refuted outside the guard: a = [1, 2, 3];  def h(P): return P[len(a) - 1]
-   while True: a.remove(c); r = h(a); mon.write(r); a.append(c)   c = 2
-   - len(a) in the function body is folded when the `def` is parsed (3); the list has 2 elements at the call *)
-Theorem C09_stale_len_def_time_refuted : exists cs pst,
+   while True: r = h(a); mon.write(r); a.remove(c); r = h(a); mon.write(r); a.append(c)   c = 2
+   - len(a) in the function body is folded where the function's list variant is parsed, at its FIRST call (3); the list
+   has 2 elements at the second call *)
+Theorem C09_stale_len_first_call_refuted : exists cs pst,
   run_py_t stale_def_setup stale_def_body cs = POk pst /\
   run_fw_t stale_def_setup stale_def_body cs = Unsafe OutOfBounds.
 Proof. exact stale_def_oob. Qed.
-Print Assumptions C09_stale_len_def_time_refuted.
+Print Assumptions C09_stale_len_first_call_refuted.
